@@ -37,7 +37,16 @@ class Engine(Executor):
         if recv is not None:
             env["recv"] = recv
         ann = c.opts.get("returns")
-        res = self.fresh_of_annotation(ann, "ret_%s_%d" % (name.replace(".", "_"), len(self.obligations)), s, node) if ann else Z(V.VNone)
+        if c.opts.get("pure") and ann and all(isinstance(a_, Z) for a_ in args) and not kwargs:
+            # a library read that gives the same answer every time it is asked within one run (sys.stdin.isatty())
+            fn = z3.Function("ext_" + name.replace(".", "_"), *([Val] * len(args) + [Val]))
+            res = Z(fn(*[a_.t for a_ in args]))
+            cst, h = self.constraint_of_annotation(ast.parse(ann, mode="eval").body, res.t)
+            if cst is not None:
+                s.assume(cst)
+            res.hint = h
+        else:
+            res = self.fresh_of_annotation(ann, "ret_%s_%d" % (name.replace(".", "_"), len(self.obligations)), s, node) if ann else Z(V.VNone)
         env["result"] = res
         self.assumptions.add("assumed external contract: %s (%s)" % (c.target, c.notes or "library call"))
         form = c.opts.get("call_form")
@@ -1115,6 +1124,8 @@ class Engine(Executor):
                 continue          # a clause over the whole sequence of yields: the consuming loop sees one abstract element at a time
             if used & callee_locals:
                 continue          # a clause about the callee's own locals at its return point: checked against its body, no fact for callers
+            if used & {"events", "called", "call_event", "yield_count"}:
+                continue          # a clause about the callee's own trace of contracted calls: the caller's trace is another one
             nxt = []
             for st in states:
                 for (s2, b) in self.eval_clause(en, st, env2, node):
@@ -1612,6 +1623,12 @@ class Engine(Executor):
                     if isinstance(x, tuple):
                         results.append(x)
                         continue
+                    for ea in spec.get("elem_assume", []):
+                        # a stated fact about the loop variable that no contract in reach can carry (the element type of
+                        # a library object's list attribute): assumed, and listed as an assumption
+                        for (x2, b) in self.eval_clause(ea, x, x.env, stmt):
+                            x2.assume(b)
+                        self.assumptions.add("loop %r: assumed of every element: %s" % (key, ea))
                     if not self.solver.feasible(x.pc):
                         continue
                     x.flags["iter_env"] = dict(x.env)
